@@ -35,6 +35,10 @@ from vf.gen import gen_c17 as G
 from vf.monitors import c17_mon
 
 PID = 'C17'
+# mechanisms listed with status "known": only these may be used as the classification of a failure; once a finding
+# is "fixed" a recurrence is reported under the generic key of the failing oracle
+KNOWN_MECHS: T.Set[str] = {f['mechanism'] for f in common.load_known_findings()
+                           if f.get('property') == PID and f.get('status') == 'known'}
 MPARSER: T.Any = None
 MLOG: T.Any = None
 
@@ -157,10 +161,10 @@ class Step:
     def failed(self, oracle: str, generic: str, detail: dict, expl: T.Sequence[str], direct: T.Optional[str] = None) -> None:
         if self.fail is not None:
             return
-        mech = direct
+        mech = direct if direct in KNOWN_MECHS else None
         if mech is None:
             for e in RELEVANT.get(oracle, []):
-                if e in expl:
+                if e in expl and e in KNOWN_MECHS:
                     mech = e
                     break
         self.fail = {'oracle': oracle, 'mechanism': mech or generic, 'detail': detail, 'explanations': list(expl)}
@@ -336,7 +340,7 @@ def judge(before: M.Model, new_files: T.Dict[str, str], cmd: dict, via: str, res
         if err is not None:
             st.failed('parse', 'unparseable-after-edit', witness({'file': f, 'real_parser': err}), expl())
             return st
-    after = M.Model(new_files)
+    after = M.Model(new_files, before.config)
     if after.parse_error is not None:
         f, e = after.parse_error
         st.failed('parse', 'unparseable-after-edit', witness({'file': f, 'reference_parser': str(e)}), expl())
@@ -444,6 +448,12 @@ def judge(before: M.Model, new_files: T.Dict[str, str], cmd: dict, via: str, res
         view_b = before.sources(rec) if what == 'sources' else before.extra(rec)
         view_a = after.sources(rec2) if what == 'sources' else after.extra(rec2)
         lb, la = sorted(json.dumps(x, sort_keys=True) for x in view_b), sorted(json.dumps(x, sort_keys=True) for x in view_a)
+        if any(s.conditional for s in allowed):
+            # The sources depend on the configuration (a feeding variable is assigned inside an if/foreach): the
+            # rewriter cannot know whether a file is already there in THIS configuration, and Meson ignores a
+            # source listed twice (BuildTarget.process_sourcelist) -- compare as sets, not as multisets.
+            st.count('oracle:value:configuration-dependent-sources-as-set')
+            lb, la = sorted(set(lb)), sorted(set(la))
         sb, sa = set(lb), set(la)
         want = {json.dumps(os.path.normpath(x)) for x in cmd.get('sources', [])}
         st.count(f'oracle:value:{op}')
@@ -692,8 +702,11 @@ def check_kwargs_info(st: Step, rec: M.CallRec, cmd: dict, info: T.Optional[dict
 
 def run_sequence(root: str, tag: str, files: T.Dict[str, str], pool: T.Sequence[str], rng: random.Random,
                  planned: T.Optional[T.List[dict]], maxlen: int, inside_exist: bool, force_via: T.Optional[str] = None,
-                 do_batch: bool = True) -> dict:
+                 do_batch: bool = True, configs: T.Optional[T.Sequence[T.Mapping[str, T.Any]]] = None) -> dict:
+    """configs: the configurations (values of get_option()) the project is judged in; the first one is the primary
+    configuration (commands are generated from its model), every step is judged again in each of the others."""
     out: T.Dict[str, T.Any] = {'counts': {}, 'violations': [], 'samples': [], 'cases': [], 'notes': []}
+    cfgs = [dict(c) for c in (configs or [{}])]
 
     def count(k: str, n: int = 1) -> None:
         out['counts'][k] = out['counts'].get(k, 0) + n
@@ -701,7 +714,7 @@ def run_sequence(root: str, tag: str, files: T.Dict[str, str], pool: T.Sequence[
     shutil.rmtree(d, ignore_errors=True)
     runner.write_tree(d, files)
     state = read_tree(d)
-    model = M.Model(state)
+    model = M.Model(state, cfgs[0])
     if not model.ok:
         count('skipped:reference-cannot-evaluate-project')
         shutil.rmtree(d, ignore_errors=True)
@@ -730,6 +743,20 @@ def run_sequence(root: str, tag: str, files: T.Dict[str, str], pool: T.Sequence[
         for k, v in st.counts.items():
             count(k, v)
         count('steps')
+        config_of_failure = cfgs[0]
+        if st.fail is None and st.outcome in ('applied', 'info', 'refused:documented'):
+            # the same step, seen from every other configuration of the project
+            for alt in cfgs[1:]:
+                malt = M.Model(model.files, alt)
+                if not malt.ok:
+                    count('skipped:alternate-configuration-does-not-evaluate')
+                    continue
+                st2 = judge(malt, new_state, cmd, via, res, inside_exist)
+                count('oracle:alternate-configuration')
+                if st2.fail is not None:
+                    st.fail, st.outcome, config_of_failure = st2.fail, 'violation', alt
+                    count('outcome:violation-in-alternate-configuration')
+                    break
         count('outcome:' + st.outcome)
         if st.outcome.startswith('refused'):
             refused_any = True
@@ -764,6 +791,7 @@ def run_sequence(root: str, tag: str, files: T.Dict[str, str], pool: T.Sequence[
             out['violations'].append({'mechanism': st.fail['mechanism'], 'oracle': st.fail['oracle'],
                                       'explanations': st.fail['explanations'],
                                       'files': dict(model.files), 'steps': [cmd], 'via': via, 'inside_exist': inside_exist,
+                                      'configs': [config_of_failure],
                                       'original_files': files, 'earlier_steps': [c for c, _ in done], **st.fail['detail']})
             clean = False
             break
@@ -772,7 +800,7 @@ def run_sequence(root: str, tag: str, files: T.Dict[str, str], pool: T.Sequence[
         done.append((cmd, via))
         if new_state != state:
             state = new_state
-            model = M.Model(state)
+            model = M.Model(state, cfgs[0])
             if not model.ok:
                 clean = False
                 break
@@ -795,7 +823,7 @@ def run_sequence(root: str, tag: str, files: T.Dict[str, str], pool: T.Sequence[
                     break
     # ---- round-trip laws, stated on the end state ---------------------------------------------------
     if planned and planned[0].get('law') and clean and len(done) == len(planned) and not refused_any:
-        m0 = M.Model(read_tree_from(files))
+        m0 = M.Model(read_tree_from(files), cfgs[0])
         count('oracle:roundtrip-end-state')
         r0 = m0.find_target(planned[0]['target'])
         r1 = model.find_target(planned[0]['target'])
@@ -869,7 +897,7 @@ def worker(job: T.Tuple[str, int, int, int, int, float]) -> dict:
         return out
     out['features'] = proj['features']
     out['counts']['projects'] = 1
-    model0 = M.Model(proj['files'])
+    model0 = M.Model(proj['files'], proj.get('config', {}))
     for s in range(nseq):
         if time.time() > deadline:
             out['counts']['skipped:time-budget'] = out['counts'].get('skipped:time-budget', 0) + 1
@@ -882,7 +910,8 @@ def worker(job: T.Tuple[str, int, int, int, int, float]) -> dict:
             if not (planned and planned[0].get('law')):
                 planned = None
         try:
-            o = run_sequence(root, f'p{idx}_{s}', proj['files'], proj['pool'], rng, planned, maxlen, inside_exist)
+            o = run_sequence(root, f'p{idx}_{s}', proj['files'], proj['pool'], rng, planned, maxlen, inside_exist,
+                             configs=G.configurations(proj.get('config', {})))
         except Exception:      # a defect of this harness must not pass for a verdict
             import traceback
             out['counts']['harness-error'] = out['counts'].get('harness-error', 0) + 1
@@ -897,8 +926,9 @@ def worker(job: T.Tuple[str, int, int, int, int, float]) -> dict:
 # ------------------------------------------------------------------------------------------------
 # directed probes: one per listed finding (re-observed every run) + fixture calibration
 
-def probes() -> T.List[T.Tuple[str, T.Dict[str, str], T.List[dict], str, bool]]:
-    P: T.List[T.Tuple[str, T.Dict[str, str], T.List[dict], str, bool]] = []
+def probes() -> T.List[T.Tuple]:
+    """(name, files, commands, form, run-inside-with-existing-files[, configurations])"""
+    P: T.List[T.Tuple] = []
     base = "project('p')\na = true\nb = false\nn = 3\n"
 
     def kwset(key: str = 'install', val: T.Any = True) -> dict:
@@ -984,6 +1014,25 @@ def probes() -> T.List[T.Tuple[str, T.Dict[str, str], T.List[dict], str, bool]]:
     P.append(('var-from-parent-dir-rm', xdir, [tcmd('src_rm', 'app/main.c'), tcmd('src_add', 'app/main.c'), tcmd('info')], 'json', False))
     P.append(('var-from-parent-dir-extra', xdir, [tcmd('extra_files_add', 'app/new.h'), tcmd('extra_files_rm', 'app/app.h')], 'cli', False))
     P.append(('var-from-parent-dir-files', xdir, [tcmd('src_rm', 'top.c'), tcmd('info')], 'cli', False))
+    # a source variable assigned again in ONE branch of an if/else: judged in both configurations
+    both = [{'fast': True}, {'fast': False}]
+    br = ("project('p')\nsrcs = ['generic.c']\nif get_option('fast')\n  srcs = ['fast.c']\nelse\n  message('generic')\nendif\n"
+          "executable('prog', 'main.c', srcs)\n")
+    P.append(('branch-reassign-add', {'meson.build': br}, [tcmd('src_add', 'new.c'), tcmd('info')], 'cli', False, both))
+    P.append(('branch-reassign-rm-add', {'meson.build': br}, [tcmd('src_rm', 'main.c'), tcmd('src_add', 'main.c')], 'json', False, both))
+    br2 = ("project('p')\nsrcs = ['generic.c']\nexecutable('first', srcs)\nif not get_option('fast')\n  x = 1\nelif a\n  srcs = ['fast.c']\nelse\n"
+           "  srcs = ['other.c']\nendif\nexecutable('prog', srcs, 'main.c')\n")
+    P.append(('branch-reassign-two-targets', {'meson.build': "a = true\n".join(br2.split('\n', 1)) if False else br2.replace("project('p')\n", "project('p')\na = true\n")},
+              [{'type': 'target', 'target': 'first', 'operation': 'src_add', 'sources': ['first_new.c']}, tcmd('src_add', 'new.c')], 'cli', False, both))
+    # a list-typed keyword that holds ONE bare string whose backslashes survive one decoding
+    bs = ("project('p', license : 'Custom\\\\tLicense', default_options : ['warning_level=2', 'c_args=-DSEP=\\\\t -DNL=\\\\n\\\\x41'])\n"
+          "dep = dependency('zlib', version : 'core\\\\tx', modules : f'm\\\\n@0@')\nexecutable('prog', 'm.c')\n")
+    P.append(('bare-string-list-kwarg-add', {'meson.build': bs},
+              [{'type': 'kwargs', 'function': 'dependency', 'id': 'zlib', 'operation': 'add', 'kwargs': {'version': '>=2.0'}},
+               {'type': 'kwargs', 'function': 'dependency', 'id': 'zlib', 'operation': 'remove', 'kwargs': {'modules': 'absent'}},
+               {'type': 'kwargs', 'function': 'project', 'id': '/', 'operation': 'add', 'kwargs': {'license': 'MIT'}}], 'json', False))
+    P.append(('defopt-delete-then-set-on-collapsed', {'meson.build': bs}, [dopt('delete', warning_level=None), dopt('set', werror='true'),
+                                                                       dopt('delete', werror=None)], 'cli', False))
     # calibration on the shape of the repository's own fixtures
     fx = ("project('rewritetest')\nsrc1 = ['main.cpp', 'fileA.cpp']\nsrc2 = files(['fileB.cpp', 'fileC.cpp'])\n"
           "exe0 = executable('trivialprog0', src1 + src2)\nexe1 = executable('trivialprog1', src1)\n"
@@ -997,8 +1046,9 @@ def probes() -> T.List[T.Tuple[str, T.Dict[str, str], T.List[dict], str, bool]]:
 def run_probes(root: str) -> dict:
     out: T.Dict[str, T.Any] = {'counts': {}, 'violations': [], 'samples': [], 'cases': [], 'notes': []}
     rng = random.Random(1)
-    for name, files, cmds, via, inside in probes():
-        o = run_sequence(root, 'probe_' + re.sub(r'\W', '_', name), files, [], rng, cmds, 3, inside, force_via=via)
+    for name, files, cmds, via, inside, *rest in probes():
+        o = run_sequence(root, 'probe_' + re.sub(r'\W', '_', name), files, [], rng, cmds, 3, inside, force_via=via,
+                         configs=rest[0] if rest else None)
         for v in o['violations']:
             v['probe'] = name
         merge(out, o)
@@ -1020,10 +1070,11 @@ def replay(chk: common.Check, path: str) -> int:
     files = w.get('files') or w.get('original_files')
     via = w.get('via', 'json')
     if via == 'json-batch':
-        o = run_sequence(root, 'replay', files, [], random.Random(0), w['steps'], 3, bool(w.get('inside_exist')), force_via='json')
+        o = run_sequence(root, 'replay', files, [], random.Random(0), w['steps'], 3, bool(w.get('inside_exist')), force_via='json',
+                         configs=w.get('configs'))
     else:
         o = run_sequence(root, 'replay', files, [], random.Random(0), w['steps'], 3, bool(w.get('inside_exist')), force_via=via,
-                         do_batch=False)
+                         do_batch=False, configs=w.get('configs'))
     if o['violations']:
         v = o['violations'][0]
         print(f'replay: still fails: mechanism={v["mechanism"]} oracle={v["oracle"]}')
